@@ -60,6 +60,7 @@ class SG:
         self.features = collections.Counter()
         self.excluded = collections.Counter()
         self.nstmts = 0
+        self.npragma = 0
         self.mode = c.choice(["min", "min", "red", "full"])
 
     def on(self, feature, p=None):
@@ -311,7 +312,18 @@ class SG:
                 opts.append("continue;")
             return c.choice(opts)
         k = c.below(17)
-        st = lambda: self.stmt(d - 1)  # noqa: E731
+
+        def st():
+            # a run of pragmas (directive and operator form mixed) in front of a
+            # braceless body: unknown pragmas mean nothing to gcc, but the body
+            # must stay the body
+            s = self.stmt(d - 1)
+            if c.chance(0.07):
+                self.npragma += 1
+                run = "".join(c.choice(["\n#pragma pycp %d\n", ' _Pragma("pycp %d") ']) % (self.npragma * 10 + j) for j in range(c.int(1, 3)))
+                return run + s
+            return s
+
         if k == 0:
             return self.block(d - 1)
         if k == 1:
